@@ -35,13 +35,19 @@ REACH = [
 
 
 def run_contracts(chk: Check, tier: str, seed: int) -> None:
-    import safeds_stubgen.stubs_generator._generate_stubs as gs
-    import safeds_stubgen.stubs_generator._helper as helper
-    import safeds_stubgen.stubs_generator._stub_string_generator as ssg
+    # The conversion function is a private name: if a refactoring moves or renames it, the contract part is reported
+    # as not attached and the verdict is taken from the two-run relation alone (DESIGN.md section 3.2).
+    try:
+        import safeds_stubgen.stubs_generator._generate_stubs as gs
+        import safeds_stubgen.stubs_generator._helper as helper
+        import safeds_stubgen.stubs_generator._stub_string_generator as ssg
 
-    NC = helper.NamingConvention
+        NC = helper.NamingConvention
+        raw = helper._convert_name_to_convention
+    except (ImportError, AttributeError) as e:
+        chk.monitors["M11"] = {"attached": False, "error": repr(e)}
+        return
     stats = {"evals": 0, "broken": []}
-    raw = helper._convert_name_to_convention
 
     def conversion_matches_reference(name, naming_convention, result, is_class_name=False):
         stats["evals"] += 1
